@@ -384,4 +384,14 @@ theorem c14_slow_callbacks_nothing_invented (R : Int → Bool) (cfg : Cfg α) (d
   · obtain ⟨more, h1, h2⟩ := loopD_callbacks_prefix R cfg dur 0 ev [.request] [] 0
     rw [h1]; simpa using h2
 
+open Verif.Model.AwaitSlow in
+/-- The model with callback durations refines the model the other theorems are about: with
+instantaneous callbacks the two coincide on every history. -/
+theorem c14_slow_model_refines (R : Int → Bool) (cfg : Cfg α) (ev : List (Nat × In α)) :
+    runD R cfg (fun _ => 0) ev = run R cfg ev := by
+  unfold runD run
+  split
+  · rfl
+  · exact loopD_zero R cfg 0 ev _ _ _
+
 end Verif.Props.C14
